@@ -199,6 +199,8 @@ func c10Case(env *Env, tape *sim.Tape) *CaseOut {
 	CurrentSite = ""
 
 	out.Key = HashOf(di, entry, embed, data, readErrAt, writeErrAt, opts.String())
+	out.TraceHash = st.TraceHash
+	out.Digest = HashOf(op.Out, op.W.Buf, errText(op.Err), errText(op.CloseErr))
 	out.Nontrivial = true
 	out.stat("entry_"+entryName(entry), 1)
 	if extreme {
